@@ -7,6 +7,7 @@ import Mdsort.Proofs.WorldExitEx
 import Mdsort.Proofs.WorldDryF21
 import Mdsort.Proofs.WorldLinTop
 import Mdsort.Proofs.WorldLinEx
+import Mdsort.Proofs.WorldFuelEx
 
 /-!
 # C01 - no message is lost or duplicated when an I/O operation fails
@@ -282,10 +283,12 @@ through the main loop (Proofs/WorldWhole*.lean).
 * "Every registered message has an entry ..." is a statement by CONTENT (`∃ d n fid f, ... WholeVersion .. c f.data`), not by
   identity: two registered messages with the same bytes can be witnessed by one and the same entry.  The counting statements
   are the single-fault ones above.
-* Fuel: `mainP` walks a maildir with fuel `2n+8` (`n` = registered files of its `new` and `cur`).  Under `runPlan` a directory
-  listing longer than that contains an unregistered name, which sets `error` when it is met; no theorem states that the fuel
-  is never the reason a walk ends, except `exit0_walk` under `exit0_Good` (used by `C01_main_exit0_partial`).  For the
-  loss-freedom statements a shorter walk is harmless (`C01_walk_no_loss` holds for every fuel).
+* Fuel (package p12): `mainP` walks a maildir with fuel `2n+8+env.extraFuel` (`n` = registered files of its `new` and `cur`).  A
+  walk that runs out of fuel is FLAGGED (`MainSt.fuelOut`), never silent.  For the loss-freedom statements a shorter walk is
+  harmless (`C01_walk_no_loss` holds for every fuel).  `C01_walk_fuel_suffices`: a run that ends without the error flag (at
+  most one fault, `exit0_Good`) never ran out of fuel; `C01_walk_fuel_suffices_conform`: along an observed trace an allowance
+  of the length of the trace suffices; `C01_fuel_can_run_out`: with an incomplete registry (or enough faults to leave stray
+  placeholders) the standard allowance does run out - and the flag says so.
 * The model-internal registry stays consistent with the world under EVERY fault plan (it is updated
   from the ghost location, which the proof shows to be exact); entries the world has and the registry
   has not (a stray copy after a failed roll-back) only set `error` (`processMessage_unknown`). -/
@@ -739,5 +742,58 @@ example : Proofs.exEnv.stdinMode = false ∧
     Proofs.twinWorld.lookup Proofs.exNew Proofs.exName = some 0 ∧
     Proofs.twinWorld.lookup Proofs.exNew Proofs.wholeExName2 = some 1 :=
   ⟨rfl, Proofs.wholeEx_nd, Proofs.twin_reg, by decide, by decide, by decide⟩
+
+/-! ## the fuel of the walk (package p12; audit au1, W4)
+
+See the section "the fuel of the model's `readdir` loops" of `Props/C04.lean` for the general statements
+(`C04_fuel_irrelevant*`, `C04_fuel_suffices_conform`). -/
+
+/-- **The standard fuel suffices for a run that ends without the error flag**: maildir mode, real run, rules without
+discard, registry consistent, at most one fault, `exit0_Good` (no directory walked twice, distinct names, EVERY name of a
+walked directory registered, no message sent to a directory still to be walked - the hypotheses of
+`C01_main_exit0_partial`): if the run ends with the error flag clear, then `fuelOut = false` - no walk stopped for lack of
+fuel, for every value of `env.extraFuel` (in particular 0: the allowance `2n+8`).  Bound used by the proof: the walk of `new`
+makes `a+3` iterations (`a` names, `.`, `..`, end), the walk of `cur` at most `a+b+3` (`b` names it had, plus those that
+arrived from `new`), and `2a+b+6 ≤ 2n+8` for `n = a+b` registered files. -/
+theorem C01_walk_fuel_suffices (env : PEnv) (orc : EvalOracles) (confOk : Bool) (conf : List ConfBlock) (files : Files)
+    (input : Bytes) (w : World) (plan : Plan)
+    (hm : env.stdinMode = false) (hsyn : env.syntaxOnly = false) (hdry : env.dryrun = false)
+    (hnd : ∀ b ∈ conf, Proofs.WholeNoDiscard env orc b.expr) (hreg : Proofs.WholeReg w files)
+    (hgood : Proofs.exit0_Good ⟨env, orc, Proofs.exit0_dirsOf conf, files, w⟩)
+    (hpl : Proofs.World.SingleFault plan)
+    (he : (runPlan plan (mainP env orc confOk conf files input) w 0 []).1.2.error = false) :
+    (runPlan plan (mainP env orc confOk conf files input) w 0 []).1.2.fuelOut = false :=
+  Proofs.exit0_main_fuel ⟨env, orc, Proofs.exit0_dirsOf conf, files, w⟩ hgood hm hsyn confOk conf input rfl
+    (fun b hb => Proofs.exit0_step_real env orc b.expr hdry (hnd b hb)) hreg plan hpl he
+
+/-- Non-vacuity: the hypotheses of `C01_main_exit0_partial` on `Proofs.dry_f21World2` (see there), the error flag of that run
+is clear because its exit status is 0. -/
+example := C01_walk_fuel_suffices Proofs.exEnv Proofs.wholeExOrc true Proofs.exit0_exConf Proofs.wholeExFiles []
+    Proofs.dry_f21World2 Plan.none rfl rfl rfl Proofs.exit0_ex_nd Proofs.dry_f21_reg2 Proofs.dry_ex_good
+    Proofs.World.singleFault_none
+    (Proofs.exit0_status_zero Proofs.exEnv Proofs.wholeExOrc true Proofs.exit0_exConf Proofs.wholeExFiles []
+      Proofs.dry_f21World2 Plan.none rfl Proofs.dry_ex_runs.1)
+
+/-- **Along an observed trace** (`Model.conform`: the next call of the program must be the next call of the trace, the
+observed result must be possible in the abstract file system): with `env.extraFuel ≥ |tr|` a `done` answer never has
+`fuelOut`.  This is the allowance the driver uses for the conformance check. -/
+theorem C01_walk_fuel_suffices_conform (env : PEnv) (orc : EvalOracles) (confOk : Bool) (conf : List ConfBlock) (files : Files)
+    (input : Bytes) (w : World) (tr : List (Call × Res)) (hlen : tr.length ≤ env.extraFuel)
+    (a : Nat × MainSt) (w' : World) (rest : List (Call × Res))
+    (hd : conform (mainP env orc confOk conf files input) w tr 0 = .done a w' rest) : a.2.fuelOut = false :=
+  Proofs.Fuel.fuel_suffices_conform env orc confOk conf files input w tr hlen hd
+
+/-- **The standard fuel CAN run out** (evaluated, fault-free): `/m/new` holds seven files the registry does not list
+(`WholeReg` holds: nothing is registered); the walk gets `2·0+8` iterations, `.`, `..` and six names use them up, the seventh
+name is never seen, `/m/cur` is never opened - and the run ends with `fuelOut = true`.  With an allowance of 5 more
+iterations the run is complete and ends with `fuelOut = false`.  So the hypotheses of `C01_walk_fuel_suffices` (`listed`:
+every name of a walked directory is registered) are not decoration; with a complete registry several faults are needed to
+get there (each stray placeholder of a failed roll-back costs two). -/
+theorem C01_fuel_can_run_out :
+    Proofs.WholeReg Proofs.fuelExWorld [] ∧
+    (runPlan Plan.none (mainP Proofs.exEnv Proofs.wholeExOrc true Proofs.dry_f21Conf [] []) Proofs.fuelExWorld 0 []).1.2.fuelOut = true ∧
+    (runPlan Plan.none (mainP (Proofs.Fuel.withFuel Proofs.exEnv 5) Proofs.wholeExOrc true Proofs.dry_f21Conf [] [])
+      Proofs.fuelExWorld 0 []).1.2.fuelOut = false :=
+  ⟨Proofs.fuelEx_reg, Proofs.fuelEx_runs.1, Proofs.fuelEx_runs.2⟩
 
 end Mdsort.Props
